@@ -88,7 +88,22 @@ def run_check(prop, tier, seed):
             except Exception as e:
                 ctx.notes.append(f'driver unavailable: {e!r}')
                 obligations.append(('tie:driver', False, repr(e)))
-        mod.run(ctx)
+        try:
+            mod.run(ctx)
+        except C.Timeout:
+            raise
+        except Exception as e:
+            # an exception that comes out of femio itself on a generated (in-quantifier) input is an observation about
+            # the implementation, not a harness failure: report it as an oracle failure with the traceback as replay
+            tb = traceback.extract_tb(e.__traceback__)
+            inside = [f for f in tb if str(C.REPO) in f.filename]
+            if not inside:
+                raise
+            f = inside[-1]
+            ctx.fail(f'raises:{f.name}', f'femio raised {type(e).__name__}: {e} in {f.filename.replace(str(C.REPO) + "/", "")}:{f.lineno} '
+                     f'({f.name}) on a generated input of the {prop} check', {'traceback': traceback.format_exc()[-3000:],
+                                                                              'seed': seed, 'tier': tier}, None)
+            ctx.notes.append('run aborted by an exception inside femio; cases after it were not evaluated')
         obligations.append(('tie:correspondence', not ctx.disagreements and ctx.driver is not None,
                             f'{len(ctx.disagreements)} disagreements' if ctx.driver is not None else 'model driver not available'))
     except C.Timeout:
